@@ -132,3 +132,11 @@ pub assume_specification[ BlsScalar::one ]() -> (r: BlsScalar)
     ensures cv(r) == 1;
 
 } // verus!
+
+verus! {
+/// ASSUMED contract of `BlsScalar::invert` (dependency): None exactly for zero, otherwise the multiplicative inverse.
+pub assume_specification[ BlsScalar::invert ](x: &BlsScalar) -> (r: Option<BlsScalar>)
+    ensures
+        cv(*x) == 0 ==> r.is_none(),
+        cv(*x) != 0 ==> r.is_some() && (cv(*x) * cv(r.unwrap())) % R() == 1;
+}
